@@ -129,6 +129,64 @@ inline bool drop_S(Rng& r, uint64_t idx)
     }
   }
   bool ok = !run.failed && run.drain("drop_S");
+  // ---- epilogue: backtrace control requests issued while the caller's queue is FULL must take effect (they are
+  // retried until they fit): init_backtrace(3), two backtrace statements, flush_backtrace() -> exactly the accepted
+  // backtrace statements are replayed on the (separate) sink of that logger
+  if (ok && !run.idle_workers().empty() && r.chance(1, 2))
+  {
+    uint32_t const bt_sink_id = World::next_sink_id()++;
+    auto bt_sink = std::static_pointer_cast<RecSink>(Fe::create_or_get_sink<RecSink>(w.tag + "_bt", bt_sink_id));
+    Lg* bl = Fe::create_or_get_logger(w.tag + "_btl", bt_sink, quill::PatternFormatterOptions{"%(message)"}, quill::ClockSourceType::System);
+    bl->set_log_level(quill::LogLevel::TraceL3);
+    SW& s = *run.idle_workers()[0];
+    SW* sp = &s;
+    auto fill = [&]
+    {
+      // log without polling until the queue refuses a statement
+      for (int i = 0; i < 600 && !s.w->parked(); ++i)
+      {
+        size_t const before = s.issues.size();
+        run.run_on(s, [wp, sp] { bool threw; log_maybe_throw(sp->issues, wp->loggers[0].lg, 0, sp->tid, sp->seq++, 100, threw); }, "log");
+        if (s.issues.size() > before && s.issues.back().res == 0) return true;
+      }
+      return false;
+    };
+    bool const full1 = fill();
+    run.run_on(s, [bl] { tl_control_op = true; bl->init_backtrace(3); tl_control_op = false; }, "init_backtrace");
+    ok = run.wait_for(s, "drop_S") && run.drain("drop_S");
+    std::vector<std::pair<uint32_t, uint32_t>> accepted;
+    for (int i = 0; i < 2 && ok; ++i)
+    {
+      uint32_t const seq = s.seq++;
+      auto rp = std::make_shared<int>(-1);
+      run.run_on(s, [bl, sp, seq, rp] { *rp = log_bt(bl, false, sp->tid, seq, 5); }, "bt");
+      if (*rp == 1) accepted.emplace_back(s.tid, seq);
+    }
+    bool const full2 = ok && fill();
+    if (ok)
+    {
+      run.run_on(s, [bl] { tl_control_op = true; bl->flush_backtrace(); tl_control_op = false; }, "flush_backtrace");
+      ok = run.wait_for(s, "drop_S") && run.drain("drop_S");
+    }
+    if (ok)
+    {
+      std::vector<std::pair<uint32_t, uint32_t>> got;
+      for (auto const& e : recorder().snapshot())
+      {
+        if (e.kind != 'w' || e.sink != bt_sink_id) continue;
+        Parsed p = parse_msg(e.msg);
+        if (p.ok) got.emplace_back(p.tid, p.seq);
+      }
+      if (got != accepted)
+      {
+        violation("C08", "backtrace-control-request-under-full-queue-had-no-effect",
+                  J{}.unum("backtrace_statements_accepted", accepted.size()).unum("replayed", got.size()).boolean("queue_full_at_init_backtrace", full1).boolean("queue_full_at_flush_backtrace", full2).str("queue", kQueueName).str("scenario", "drop_S").raw("cfg", w.describe()));
+        ok = false;
+      }
+      if (full1 || full2) stat_add("drop_backtrace_controls_issued_on_a_full_queue");
+    }
+    Fe::remove_logger(bl);
+  }
   if (ok)
   {
     run.finish_workers();
